@@ -434,6 +434,18 @@ def op_fieldmap(case):
                         for k, doc in enumerate(c["docs"]):
                             with open(os.path.join(d, "f%03d.json" % k), "w") as fh:
                                 json.dump(doc, fh, indent=2)
+                    elif mode == "whole-nested":
+                        # the directory is searched recursively: documents spread over nested sub-directories
+                        for k, doc in enumerate(c["docs"]):
+                            sub = os.path.join(d, *(["sub%d" % j for j in range(k % 3)]))
+                            os.makedirs(sub, exist_ok=True)
+                            with open(os.path.join(sub, "f%03d.json" % k), "w") as fh:
+                                json.dump(doc, fh)
+                    elif mode == "whole-filepath":
+                        # a single file given by `filepath` instead of a directory (all documents of the case must
+                        # then be one document: the harness only asks for this layout when there is exactly one)
+                        with open(os.path.join(d, "only.json"), "w") as fh:
+                            json.dump(c["docs"][0], fh, indent=1)
                     elif mode == "lines-files":
                         for k, doc in enumerate(c["docs"]):
                             with open(os.path.join(d, "f%03d.json" % k), "w") as fh:
@@ -443,8 +455,9 @@ def op_fieldmap(case):
                         text += {"lines": "\n", "lines-blank-end": "\n\n", "lines-no-newline": ""}[mode]
                         with open(os.path.join(d, "all.jsonl"), "w") as fh:
                             fh.write(text)
-                    cfg = JSONDataSourceConfig(filepath=None, dirpath=d, json_per_line=(mode != "whole"),
-                                               field_mapping=c["field_mapping"])
+                    cfg = JSONDataSourceConfig(filepath=os.path.join(d, "only.json") if mode == "whole-filepath" else None,
+                                               dirpath=None if mode == "whole-filepath" else d,
+                                               json_per_line=not mode.startswith("whole"), field_mapping=c["field_mapping"])
                     evs = [e.model_dump() for e in JSONDataSource(cfg)]
                     res[mode] = {"events": evs}
                 except Exception as e:  # noqa: BLE001
